@@ -150,6 +150,15 @@ V("O02.arms", ["C02", "C10", "C11", "C06", "C14", "C13", "C05", "C04"], "c02_arm
   desc="42 arms, each: operands read from inside the code, stack delta stated over the whole old stack, operand ORDER of every binary / fused operator (left = lower slot / local, right = top / constant), jump targets, type errors of Not/Negate/JumpIfFalse, GetGlobal of an unset slot is a ReferenceError, Halt untraces the result")
 
 # ---------------------------------------------------------------------------------------------
+# C10 implementation choice unobservable
+# ---------------------------------------------------------------------------------------------
+V("O10.3", ["C10", "C06"], "c10_fused", expect_verified=5,
+  functions=["mirror_operator", "Compiler::compile_const_var_infix_expression", "Compiler::compile_operator", "Compiler::compile_expression arm Expr::Infix"],
+  desc="fused instruction only for (variable, int literal) with the operator's meaning or (int literal, variable) with the MIRRORED meaning (never - / % with the literal left); otherwise left code, right code (ghost log order), operator opcode; meaning tables shared with the machine arms (unit c02_arms)")
+K("O10.1", ["C10"], "compiler", "c10_add_constant", level="bounded", bound="constant pool of 0..=2 integer entries, symbolic new integer constant", functions=["Compiler::add_constant"],
+  desc="returned slot holds the same type and content; earlier slots unchanged; index in range")
+
+# ---------------------------------------------------------------------------------------------
 # per-property information for the evidence files
 # ---------------------------------------------------------------------------------------------
 NOT_APPLICABLE = {
@@ -158,6 +167,14 @@ NOT_APPLICABLE = {
 }
 
 PROPERTIES = {
+    "C10": {
+        "level": "proof",
+        "claim": "The compiler's choice between a fused variable-op-constant instruction and the generic sequence is proved meaning-preserving per function (Verus, verbatim bodies of mirror_operator, compile_const_var_infix_expression, compile_operator and the Expr::Infix arm): a fused opcode is emitted only with the operator's meaning for `x op c` or the mirrored meaning for `c op x`; the machine arms compute exactly the tabled meaning on (local, constant) / (lower, top) (unit c02_arms); the mirror laws are a lemma (lemma_mirror, same unit) over the integer contracts of C06 (O06.1/O06.2/O06.3: each operator IS the mathematical operator); the constant pool never changes an existing entry (Kani, bounded); Get/SetGlobal and Get/SetLocal arms have the same load/store contract.",
+        "note": "Trusted: Verus/Z3, Kani/CBMC, extraction rules R1,R1p,R4; helper contracts emit_* (O02.emit). Assumed: Infix nodes carry a binary operator (parser guarantee). NOT decided: equivalence of whole programs under the four transformations (relational; needs the compile-side half of C02).",
+        "design_ref": "DESIGN.md 3.7",
+        "undecided": ["whole-program equivalence under globals<->locals / literal<->variable / mirroring / constant-pool shifts (composition)"],
+        "assumptions": ["recursive compile_expression / compile_block_statement calls satisfy the induction hypothesis stated in prelude_compiler.rs"],
+    },
     "C12": {
         "level": "proof",
         "claim": "Per-arm contracts, verified by Verus on the arms of VM::run sliced verbatim from src/vm.rs for stacks / frame stacks of EVERY size: Call binds arguments by position in a fresh activation whose other slots are null and leaves everything below the base untouched; Return/ReturnValue hand back exactly the caller's stack plus the result and restore the caller's ip/bp. Function descriptors round-trip for all (u32,u16) (Kani).",
